@@ -303,6 +303,24 @@ def random_doc(rng, rich=True):
       r["b"], r["e"] = tstr(b), tstr(e)
     regions.append(r)
   body = [_rand_div(rng, nreg, dens, rich, 0, False) for _ in range(rng.choice([1, 1, 2, 3]))]
+  if rng.random() < 0.07:
+    # an ordinary subtitle file: dozens of consecutive cues in one division (counts, cue numbers and hours beyond one or two
+    # digits, long lines, many lines), starting anywhere up to several hundred hours in
+    reg = rng.randrange(nreg) if nreg else -1
+    if nreg:
+      regions[reg].pop("b", None)
+      regions[reg].pop("e", None)
+    t = Fraction(rng.choice([0, 3590, 35990, 359990, 3599990, 360000 * 3 - 10]) + rng.randint(0, 20))
+    many = []
+    for k in range(rng.randint(25, 70)):
+      d = Fraction(rng.randint(1, 4000), 1000)
+      words = " ".join(rng.choice(["lorem", "ipsum", "dolor", "sit", "amet", "x", "consectetur"]) for _ in range(rng.choice([1, 3, 8, 40])))
+      kids = [{"k": "span", "sp": "", "st": rng.choice([{}, {}, {"fw": "bold"}, {"col": "red"}]), "kids": [{"k": "t", "s": "%d %s" % (k, words)}]}]
+      for _ in range(rng.choice([0, 0, 1, 6])):
+        kids += [{"k": "br"}, {"k": "span", "sp": "", "st": {}, "kids": [{"k": "t", "s": "line " + words[:12]}]}]
+      many.append({"k": "p", "reg": reg, "sp": "", "st": {}, "b": tstr(t), "e": tstr(t + d), "kids": kids})
+      t = t + d + rng.choice([0, 0, Fraction(1, 2), 3])
+    body.append({"k": "div", "reg": -1, "kids": many})
   if rng.random() < 0.2:
     # a paragraph that is alone in its interval and holds nothing but preserved white space inside a styled span (its
     # payload would be tags around white space: no cue, and no cue number either), followed by ordinary cues
